@@ -135,7 +135,7 @@ def run(ctx):
     ctx.audit("Babylon.Properties.C05")
     if not ctx.quick:
         ctx.leanchecker(["Babylon.Anyflow.Dep", "Babylon.Anyflow.DepLemmas", "Babylon.Anyflow.Graph", "Babylon.Anyflow.GraphSem",
-                         "Babylon.Anyflow.GraphLemmas", "Babylon.Anyflow.GraphTerm", "Babylon.Properties.C05"])
+                         "Babylon.Anyflow.GraphLemmas", "Babylon.Anyflow.GraphTerm", "Babylon.Anyflow.View", "Babylon.Properties.C05"])
     drv = ctx.driver("drv_C05")
     exe, log = _build()
     if exe is None:
